@@ -130,6 +130,23 @@ def stepHist (w : World) (ws : List String) : Option (World × String) :=
     -- `Clone::clone` of a token appends a prime to its payload (so clones are visible)
     let (w', s) := inplace w r (fun m => m.overwrite (w.cloneFn) src)
     pure (w', s ++ " | " ++ stStr src)
+  | ["scgen", dst, a, variant] => do
+    -- generic scalar_operation family with a recording closure `[element|scalar]`, scalar "S"
+    let dst ← dst.toNat?; let a ← a.toNat?
+    let ma ← w.get a
+    let f := fun (e s : String) => "[" ++ e ++ "|" ++ s ++ "]"
+    if variant = "assign" then
+      let m' := ma.scalarAssign "S" f
+      let w' := w.set a (some m')
+      pure (w', "ok | " ++ w'.regStr dst ++ " | " ++ w'.regStr a)
+    else
+      let w1 := if variant = "consume" then w.set a none else w
+      match ma.scalarOperation w.es "S" f with
+      | .error e => pure (w1, faultStr e)
+      | .ok (.error e) => pure (w1, "err " ++ e.name ++ " | " ++ w1.regStr dst ++ " | " ++ w1.regStr a)
+      | .ok (.ok m') =>
+        let w' := w1.set dst (some m')
+        pure (w', "ok | " ++ w'.regStr dst ++ " | " ++ w'.regStr a)
   | ["ew", dst, a, b, variant, opname] => do
     let dst ← dst.toNat?; let a ← a.toNat?; let b ← b.toNat?
     stepEw w dst a b variant opname false false
